@@ -310,11 +310,12 @@ fn run_case(c: &Case) -> (Vec<Alarm>, Vec<String>, u64, u64) {
     if c.driver == 0 {
         let (ex, sched) = executor::<Async<'static, FdX>>().expect("executor");
         let ret = returned.clone();
-        h.insert_source(ex, move |a, _, n: &mut u64| {
-            *n += 1;
-            ret.borrow_mut().push(a);
-        })
-        .expect("insert executor");
+        let exec_token = h
+            .insert_source(ex, move |a, _, n: &mut u64| {
+                *n += 1;
+                ret.borrow_mut().push(a);
+            })
+            .expect("insert executor");
         if let Some(f) = wfut {
             sched.schedule(Counted { f: Box::pin(f), polls: polls.clone() }).expect("schedule");
         }
@@ -396,6 +397,11 @@ fn run_case(c: &Case) -> (Vec<Alarm>, Vec<String>, u64, u64) {
             let _ = el.dispatch(Some(Duration::ZERO), &mut evs);
         }
         drop(sched);
+        if !(sh.writer_done.get() && sh.reader_done.get()) {
+            // a transfer that was cut short leaves its tasks - and with them the adapters, which are handles to the
+            // loop - inside the executor inside the loop: the harness takes apart the reference cycle it built
+            h.remove(exec_token);
+        }
     } else {
         // block_on drives both tasks
         let ret = returned.clone();
